@@ -90,6 +90,11 @@ def oracle(toks, line):
         want = [("in0", 0x8000, nbytes)] if kind == "app" else []
         m = re.match(r"ok in0:32768 copied=1 (\S+)$", line)
         return bool(m) and runs(m.group(1)) == want
+    if op == "grantg":
+        # whatever a granting backend answers, the tainted result designates sandbox memory holding the source bytes
+        return line == f"ok inside copied={0 if toks[1] == '1' else 1} bytes=same"
+    if op == "denyg":
+        return line == f"ok app copied={0 if toks[1] == '1' else 1} bytes=same"
     if op == "grantf":
         # the allocator inside the sandbox returns anything: the copy proceeds only into a buffer wholly inside the sandbox
         kind, off = parse_addr(toks[2]); c = int(toks[3]); sz = APPSZ[toks[1]]; v = int(toks[4]) % (1 << 32)
@@ -165,6 +170,12 @@ def gen_ops(chk, thorough):
         for s in ["null"] + [f"app:{o}" for o in app_starts] + ["in0:64", f"in0:{BLK - 16}", "in1:64"]:
             for c in (0, 1, 2, 5, 8, 16, 17, 100, (BLK - 0x8000) // sz, (BLK - 0x8000) // sz + 1, BLK, 0xFFFFFFFF, 0x100000000, 1 << 40):
                 ops.append(f"grant {el} {s} {c}")
+    # a backend that declares can_grant_deny_access and grants (1), refuses with the caller's pointer (0) or refuses with null (2)
+    for mode in (0, 1, 2):
+        for el in ("char", "short", "double"):
+            for c in (1, 2, 16, 100):
+                ops.append(f"grantg {mode} {el} app:64 {c}")
+                ops.append(f"denyg {mode} {el} {c}")
     for el in ("char", "short", "double"):
         sz = APPSZ[el]
         for s in ["app:64", "in0:64", "null"]:
